@@ -853,6 +853,11 @@ impl Component for Conn {
                         if !b.keys.contains(&ni) {
                             mon.fail("C05", "nak-nonholder", format!("NAK {nk} charged link {i} which did not hold it"));
                         }
+                        // "only of an uplink that had that packet outstanding", judged by the independent
+                        // sent-and-not-retired set (emptied by every reset), not by the implementation's own log
+                        if !self.inf_injected && !self.spec[i].contains(&ni) {
+                            mon.fail("C05", "nak-charged-not-outstanding", format!("NAK {nk} charged link {i} (nak {}->{}, window {}->{}, in_flight {}->{}) although the link has not had that packet outstanding since its last reset / retirement; its sent-and-not-retired set is {:?}", b.nak, a.nak, b.w, a.w, b.inf, a.inf, self.spec[i].iter().take(8).collect::<Vec<_>>()));
+                        }
                         let exp_w = (b.w - 100).max(1000);
                         if a.nak != b.nak.saturating_add(1)
                             || a.w != exp_w
